@@ -134,6 +134,47 @@ fn main() {
                 None => println!("none"),
             }
         }
+        Some("selftest-iso") => {
+            // oracle adequacy: corrupt walrus's *output* by one byte inside the
+            // standard sections; every mutant that still validates and decodes to
+            // something different must be rejected by the bijection oracle
+            let n: usize = args.get(2).and_then(|s| s.parse().ok()).unwrap_or(300);
+            let mut rng: u64 = 99;
+            let (mut valid_mutants, mut killed, mut equal) = (0usize, 0usize, 0usize);
+            let mut survivors: Vec<String> = Vec::new();
+            for i in 0..n {
+                let len = 200 + (i % 600);
+                let data: Vec<u8> = (0..len).map(|_| { rng = run::mix(rng, 7); (rng >> 24) as u8 }).collect();
+                let g = gen::generate(&data, &props::cfg_for("full-nobig"));
+                let out = match wal::roundtrip(&g.bytes, wal::Cfg::bare(), false) { Ok(Some(b)) => b, _ => continue };
+                let da = match decode::decode(&g.bytes) { Ok(d) => d, Err(_) => continue };
+                let secs = decode::raw_sections(&out).unwrap();
+                for k in 0..40 {
+                    rng = run::mix(rng, k);
+                    let s = &secs[(rng as usize) % secs.len()];
+                    if s.id == 0 || s.payload.is_empty() { continue; }
+                    let pos = s.payload.start + ((rng >> 20) as usize % s.payload.len());
+                    let mut mutant = out.clone();
+                    let old = mutant[pos];
+                    mutant[pos] = old ^ (1 << ((rng >> 50) % 8));
+                    if optable::validate_walrus(&mutant).is_err() { continue; }
+                    let db = match decode::decode(&mutant) { Ok(d) => d, Err(_) => continue };
+                    valid_mutants += 1;
+                    let mut iso = iso::Iso::new(&da, &db);
+                    iso.tolerate = vec!["memarg-offset-truncated-to-u32".into()];
+                    if iso.run_full().is_err() {
+                        killed += 1;
+                    } else {
+                        // accepted: is the mutant really different after canonicalisation?
+                        let orig = decode::decode(&out).unwrap();
+                        let same = format!("{:?}", orig.funcs.iter().map(|f| iso::canonicalise(&f.ops).0.iter().map(|o| (o.name, o.imms.clone())).collect::<Vec<_>>()).collect::<Vec<_>>())
+                            == format!("{:?}", db.funcs.iter().map(|f| iso::canonicalise(&f.ops).0.iter().map(|o| (o.name, o.imms.clone())).collect::<Vec<_>>()).collect::<Vec<_>>());
+                        if same { equal += 1; } else if survivors.len() < 10 { survivors.push(format!("case {} section {} byte {} {:02x}->{:02x}", i, s.id, pos, old, mutant[pos])); }
+                    }
+                }
+            }
+            println!("valid mutants {} killed {} accepted-with-identical-canonical-code {} survivors {:?}", valid_mutants, killed, equal, survivors);
+        }
         Some("dbg-edge") => {
             for (n, b) in props::c05::edge_encodings() {
                 for stable in [false, true] {
